@@ -940,6 +940,11 @@ def run(tier: str) -> CheckResult:
         "--override_num_invocation is honoured for the fixed policy only (Conv.overrideNPolicies); its help text says "
         "'all TaskGraphs' but poisson / gamma / closed_loop keep the declared count — treated as a convention, not accused"
     )
+    # closed loop inside real simulations: in-flight <= concurrency and N in total (invariants C19_ClosedLoop*,
+    # evaluated by SimTrace on every state of every closed-loop world of the shared sim corpus)
+    from . import simprops
+
+    simprops.check("C19", tier, res)
     return res
 
 
